@@ -247,9 +247,12 @@ theorem Rd.readToEnd_fail (fuel : Nat) (r : Rd) (k : Nat) (h : Rd.Fail r k) (hfu
       have hF2 := Rd.consume_fail r' k r'.avail hF (Nat.le_refl _)
       rw [ih (r'.consume r'.avail) _ hF2 (by rw [Rd.consume_data, hd, List.length_drop]; omega)]
 
-/-- `read_line` on a failing reader: the I/O error, or a line with the reader still failing later. -/
+/-- `read_line` on a failing reader: the I/O error, or the same line as without the failure (it ends in a newline found
+    before the failure point) with the reader still failing later. -/
 theorem Rd.readLine_fail (fuel : Nat) (r : Rd) (k : Nat) (h : Rd.Fail r k) (hfuel : r.data.length < fuel) :
-    r.readLine fuel = .error .io ∨ ∃ line r' k', r.readLine fuel = .ok (line, r') ∧ Rd.Fail r' k' := by
+    r.readLine fuel = .error .io ∨ ∃ r' k', r.readLine fuel =
+        .ok (r.data.takeWhile (· ≠ 10) ++ (if (r.data.takeWhile (· ≠ 10)).length < r.data.length then [10] else []), r') ∧
+      Rd.Fail r' k' ∧ r'.data = r.data.drop ((r.data.takeWhile (· ≠ 10)).length + 1) := by
   induction fuel generalizing r k with
   | zero => omega
   | succ fuel ih =>
@@ -264,13 +267,29 @@ theorem Rd.readLine_fail (fuel : Nat) (r : Rd) (k : Nat) (h : Rd.Fail r k) (hfue
       simp only [hnemp, Bool.false_eq_true, if_false]
       by_cases hlt : ((r.data.take r'.avail).takeWhile (· ≠ 10)).length < (r.data.take r'.avail).length
       · rw [if_pos hlt]
-        exact Or.inr ⟨_, _, _, rfl, Rd.consume_fail r' k _ hF (by omega)⟩
+        have heq := List.takeWhile_take_of_lt (· ≠ 10) r.data r'.avail hlt
+        rw [heq] at hlt ⊢
+        refine Or.inr ⟨r'.consume ((r.data.takeWhile (· ≠ 10)).length + 1), _, ?_,
+          Rd.consume_fail r' k _ hF (by omega), ?_⟩
+        · rw [if_pos (by omega)]
+        · rw [Rd.consume_data, hd]
       · rw [if_neg hlt, hlen]
+        have heq := List.takeWhile_of_take_all (· ≠ 10) r.data r'.avail hlt
         have hF2 := Rd.consume_fail r' k r'.avail hF (Nat.le_refl _)
-        rcases ih (r'.consume r'.avail) _ hF2 (by rw [Rd.consume_data, hd, List.length_drop]; omega) with
-          he2 | ⟨line, r'', k', he2, hF3⟩
+        have hd2 : (r'.consume r'.avail).data = r.data.drop r'.avail := by rw [Rd.consume_data, hd]
+        rcases ih (r'.consume r'.avail) _ hF2 (by rw [hd2, List.length_drop]; omega) with
+          he2 | ⟨r'', k', he2, hF3, hd3⟩
         · rw [he2]; exact Or.inl rfl
-        · rw [he2]; exact Or.inr ⟨_, _, _, rfl, hF3⟩
+        · rw [he2]
+          refine Or.inr ⟨r'', k', ?_, hF3, ?_⟩
+          · dsimp only
+            rw [hd2, heq, List.length_append, hlen, List.length_drop, List.append_assoc]
+            congr 3
+            by_cases hc : ((r.data.drop r'.avail).takeWhile (· ≠ 10)).length < r.data.length - r'.avail
+            · rw [if_pos hc, if_pos (by omega)]
+            · rw [if_neg hc, if_neg (by omega)]
+          · rw [hd3, hd2, heq, List.length_append, hlen, List.drop_drop]
+            rfl
 
 /-- the npy value loop on a failing reader reports the I/O error (it only stops on an empty `fill_buf`). -/
 theorem readValuesRd_fail (en : Endian) (t : NpyTy) (fuel : Nat) (r : Rd) (k : Nat) (h : Rd.Fail r k)
@@ -456,31 +475,79 @@ theorem bytesToChars_rest (l : List Nat) (ha : allAscii l = true) :
         List.drop_succ_cons] at this ⊢
       rw [this]
 
+theorem allAscii_append (a b : List Nat) : allAscii (a ++ b) = (allAscii a && allAscii b) := by
+  simp [allAscii, List.all_append]
+
+/-- `readText` (ASCII check on the whole input first) in the order of `read_scs`: the header line checked and parsed
+    first, then the rest checked and parsed. -/
+theorem readText_split (l : List Nat) :
+    readText l =
+      (if !allAscii (l.takeWhile (· ≠ 10) ++ (if (l.takeWhile (· ≠ 10)).length < l.length then [10] else []))
+       then .error .invalid
+       else match parseTextHeader ((bytesToChars
+            (l.takeWhile (· ≠ 10) ++ (if (l.takeWhile (· ≠ 10)).length < l.length then [10] else []))).takeWhile
+              (· ≠ '\n')) with
+        | none => .error .invalid
+        | some shape =>
+          if !allAscii (l.drop ((l.takeWhile (· ≠ 10)).length + 1)) then .error .invalid
+          else match (splitWs (bytesToChars (l.drop ((l.takeWhile (· ≠ 10)).length + 1)))).mapM parseF64 with
+            | none => .error .invalid
+            | some vals => if checkedSize shape = some vals.length then .ok (shape, vals) else .error .invalid) := by
+  have hsplit := List.line_append_rest l
+  have hall := allAscii_append
+    (l.takeWhile (· ≠ 10) ++ (if (l.takeWhile (· ≠ 10)).length < l.length then [10] else []))
+    (l.drop ((l.takeWhile (· ≠ 10)).length + 1))
+  rw [hsplit] at hall
+  unfold readText
+  by_cases ha : allAscii l = true
+  · rw [ha] at hall
+    have hL : allAscii (l.takeWhile (· ≠ 10) ++ (if (l.takeWhile (· ≠ 10)).length < l.length then [10] else [])) = true := by
+      revert hall; cases allAscii (l.takeWhile (· ≠ 10) ++ (if (l.takeWhile (· ≠ 10)).length < l.length then [10] else [])) <;> simp
+    have hR : allAscii (l.drop ((l.takeWhile (· ≠ 10)).length + 1)) = true := by
+      rw [hL] at hall; simpa using hall.symm
+    rw [hL, hR, ha, bytesToChars_line _ ha, bytesToChars_rest _ ha]
+    rfl
+  · have ha' : allAscii l = false := by simpa using ha
+    rw [ha'] at hall
+    rw [ha', if_pos (show (!false) = true from rfl)]
+    by_cases hL : allAscii (l.takeWhile (· ≠ 10) ++ (if (l.takeWhile (· ≠ 10)).length < l.length then [10] else [])) = true
+    · have hR : allAscii (l.drop ((l.takeWhile (· ≠ 10)).length + 1)) = false := by
+        rw [hL] at hall; simpa using hall.symm
+      rw [hL, hR]
+      cases parseTextHeader (List.takeWhile (· ≠ '\n') (bytesToChars
+        (l.takeWhile (· ≠ 10) ++ (if (l.takeWhile (· ≠ 10)).length < l.length then [10] else [])))) <;> rfl
+    · have hL' : allAscii (l.takeWhile (· ≠ 10) ++ (if (l.takeWhile (· ≠ 10)).length < l.length then [10] else [])) = false := by
+        simpa using hL
+      rw [hL']; rfl
+
 theorem readTextRd_ok (r : Rd) (h : Rd.Ok r) : readTextRd r = readText r.data := by
-  unfold readTextRd readText
+  rw [readText_split]
+  unfold readTextRd
   obtain ⟨r1, he1, hok1, hd1⟩ := Rd.readLine_ok (r.data.length + 1) r h (Nat.lt_succ_self _)
   rw [he1]; dsimp only
   obtain ⟨r2, he2, _⟩ := Rd.readToEnd_schedule_free (r1.data.length + 1) r1 hok1 (Nat.lt_succ_self _)
   rw [he2]; dsimp only
-  rw [hd1, List.line_append_rest]
-  by_cases ha : (!allAscii r.data) = true
-  · rw [if_pos ha, if_pos ha]
-  rw [if_neg ha, if_neg ha]
-  have ha' : allAscii r.data = true := by simpa using ha
-  rw [bytesToChars_line _ ha', bytesToChars_rest _ ha']
-  cases parseTextHeader (List.takeWhile (· ≠ '\n') (bytesToChars r.data)) with
-  | none => rfl
-  | some shape =>
-    dsimp only
-    cases List.mapM parseF64 (splitWs (List.drop 1 (List.dropWhile (· ≠ '\n') (bytesToChars r.data)))) <;> rfl
+  rw [hd1]
+  rfl
 
-/-- the text reader on a failing reader reports the I/O error. -/
-theorem readTextRd_fail (r : Rd) (k : Nat) (hF : Rd.Fail r k) : readTextRd r = .error .io := by
+/-- the text reader on a failing reader reports the I/O error, or (bad header line before the failure point) the error
+    it reports on the whole byte string. -/
+theorem readTextRd_fail (r : Rd) (k : Nat) (hF : Rd.Fail r k) :
+    readTextRd r = .error .io ∨ ∃ e, readTextRd r = .error e ∧ readText r.data = .error e := by
+  rw [readText_split]
   unfold readTextRd
-  rcases Rd.readLine_fail (r.data.length + 1) r k hF (Nat.lt_succ_self _) with he | ⟨line, r1, k1, he, hF1⟩
-  · rw [he]
+  rcases Rd.readLine_fail (r.data.length + 1) r k hF (Nat.lt_succ_self _) with he | ⟨r1, k1, he, hF1, _⟩
+  · rw [he]; exact Or.inl rfl
   · rw [he]; dsimp only
     rw [Rd.readToEnd_fail (r1.data.length + 1) r1 k1 hF1 (Nat.lt_succ_self _)]
+    by_cases hL : (!allAscii (r.data.takeWhile (· ≠ 10) ++
+        (if (r.data.takeWhile (· ≠ 10)).length < r.data.length then [10] else []))) = true
+    · rw [if_pos hL, if_pos hL]; exact Or.inr ⟨_, rfl, rfl⟩
+    · rw [if_neg hL, if_neg hL]
+      cases parseTextHeader (List.takeWhile (· ≠ '\n') (bytesToChars (r.data.takeWhile (· ≠ 10) ++
+        (if (r.data.takeWhile (· ≠ 10)).length < r.data.length then [10] else [])))) with
+      | none => exact Or.inr ⟨_, rfl, rfl⟩
+      | some shape => exact Or.inl rfl
 
 /-! ## writers -/
 
